@@ -118,6 +118,8 @@ type Machine struct {
 	trace   []int
 	pc      []*sym.Term
 	nondets []nondetRec
+	// decoder name -> the string terms it was applied to on this path
+	ufArgs  map[string][]*sym.Term
 	notes   []nondetRec
 	globals map[*ssa.Global]*Value
 	inited  map[*ssa.Package]bool
@@ -146,6 +148,8 @@ type Machine struct {
 	pinned    []ModelVal
 	coros     []*coro
 	protected map[*Value]*protInfo
+	protMaps  map[*Map]*protInfo // map objects reachable from a protected cell
+	protMapSeen map[*Map]bool
 	interfere map[*Value][]Value // mutex -> closures run at each acquisition
 	shared    map[*Value]*protInfo
 	inHavoc   bool
@@ -855,6 +859,9 @@ func (m *Machine) visitInstr(fr *frame, instr ssa.Instruction) continuation {
 		addr := m.deref(fr, fr.get(instr.Addr))
 		if m.protected != nil || m.shared != nil {
 			m.checkAccess(addr, true)
+			if pi, ok := m.protected[addr]; ok {
+				m.protectMap(fr.get(instr.Val), pi)
+			}
 		}
 		store(addr, fr.get(instr.Val))
 
@@ -1002,6 +1009,7 @@ func (m *Machine) visitInstr(fr *frame, instr ssa.Instruction) continuation {
 		if mp == nil {
 			m.goPanicf("assignment to entry in nil map")
 		}
+		m.checkMapAccess(mp, true)
 		m.mapInsert(mp, fr.get(instr.Key), fr.get(instr.Value))
 
 	case *ssa.TypeAssert:
@@ -1210,6 +1218,56 @@ func (m *Machine) inHarness() bool {
 		fn = fn.Parent()
 	}
 	return strings.Contains(m.eng.prog.Fset.Position(fn.Pos()).Filename, "zz_vrf_")
+}
+
+// protectMap extends the protection of a cell to the map object stored in it
+// and to the maps stored inside that map (a map of maps is one guarded
+// structure: Go maps are not safe for a write concurrent with anything).
+func (m *Machine) protectMap(v Value, pi *protInfo) {
+	mp, ok := v.(*Map)
+	if !ok || mp == nil {
+		return
+	}
+	if m.protMaps == nil {
+		m.protMaps = map[*Map]*protInfo{}
+	}
+	if _, done := m.protMaps[mp]; done {
+		return
+	}
+	m.protMaps[mp] = pi
+	for _, e := range mp.entries {
+		if !e.deleted {
+			m.protectMap(e.val, pi)
+		}
+	}
+}
+
+func (m *Machine) checkMapAccess(mp *Map, write bool) {
+	if m.protMaps == nil || mp == nil || m.inHavoc || m.inHarness() {
+		return
+	}
+	pi, ok := m.protMaps[mp]
+	if !ok {
+		return
+	}
+	held := false
+	if n := m.natives[pi.mutex]; n != nil {
+		if d, ok := n.Data.(*mutexData); ok {
+			held = d.writer || (!write && d.readers > 0)
+		}
+	}
+	if held || m.protMapSeen[mp] {
+		return
+	}
+	if m.protMapSeen == nil {
+		m.protMapSeen = map[*Map]bool{}
+	}
+	m.protMapSeen[mp] = true
+	kind := "read"
+	if write {
+		kind = "write"
+	}
+	m.recordViolation(pi.label+".guarded-access", fmt.Sprintf("%s of a map inside a protected field without holding its mutex (a write needs the write lock) at %s", kind, m.where()))
 }
 
 func (m *Machine) checkAccess(addr *Value, write bool) {
